@@ -132,6 +132,10 @@ func cleanPath(path string) string {
 		if b[i] == '/' {
 			if b[i+1] == '.' && b[i+2] == '.' {
 				s := bytes.LastIndexByte(b[:i], '/')
+				if string(b[s+1:i]) == ".." {
+					// A leading ".." element cannot be eliminated.
+					continue
+				}
 				b = append(b[:s+1], b[i+4:]...)
 				i = s - 1
 			}
